@@ -30,6 +30,8 @@ type itemOpts struct {
 	protected bool // Interop / Pointer allowed (execution result stacks)
 	plainJSON bool // restrict to what the lossy plain JSON form keeps stable
 	maxBytes  int  // per byte string
+	bin       bool // binary serialization only: items near the size limit allowed
+	plain     bool // no special (maximal / deep / shared) shapes
 }
 
 type itemGen struct {
@@ -108,7 +110,7 @@ func (g *itemGen) item(depth int) stackitem.Item {
 	if depth > g.maxDep {
 		g.maxDep = depth
 	}
-	if g.items <= 0 || g.bytes <= 16 || r.Chance(3, 5) {
+	if g.items <= 0 || g.bytes <= 16 || r.Chance(3, 5) || g.o.plainJSON && depth >= 8 {
 		if g.o.protected && r.Chance(1, 10) {
 			if r.Bool() {
 				g.shape["Interop"] = true
@@ -156,19 +158,19 @@ func genItem(r *rng.R, o itemOpts) (stackitem.Item, string) {
 	}
 	g := &itemGen{r: r, o: o, items: 1 + r.Intn(40), bytes: 4000, shape: map[string]bool{}}
 	special := ""
-	if !o.plainJSON {
+	if !o.plainJSON && !o.plain {
 		switch r.Intn(40) {
 		case 0: // exactly MaxDeserialized items
-			special = "max-items"
 			arr := make([]stackitem.Item, stackitem.MaxDeserialized-1)
 			for i := range arr {
 				arr[i] = stackitem.Null{}
 			}
 			return stackitem.NewArray(arr), "special:max-items"
 		case 1: // close to MaxSize bytes in one string
-			special = "max-size"
-			n := stackitem.MaxSize - 8 - r.Intn(3)
-			return stackitem.NewArray([]stackitem.Item{stackitem.NewByteArray(r.Bytes(n))}), "special:max-size"
+			if o.bin {
+				n := stackitem.MaxSize - 8 - r.Intn(3)
+				return stackitem.NewArray([]stackitem.Item{stackitem.NewByteArray(r.Bytes(n))}), "special:max-size"
+			}
 		case 2: // deep chain
 			d := 50 + r.Intn(1900)
 			var it stackitem.Item = stackitem.NewBool(true)
@@ -186,6 +188,7 @@ func genItem(r *rng.R, o itemOpts) (stackitem.Item, string) {
 		case 4:
 			g.items = 300 + r.Intn(1500)
 			g.bytes = 100000
+			special = ":large"
 		}
 	}
 	it := g.item(0)
@@ -208,8 +211,8 @@ func genArrayItem(r *rng.R, o itemOpts) *stackitem.Array {
 
 // genAER returns an execution result (as stored in the database and returned
 // by RPC).
-func genAER(r *rng.R, shape *[]string) *state.AppExecResult {
-	o := itemOpts{protected: true, maxBytes: 100}
+func genAER(r *rng.R, invocations bool, shape *[]string) *state.AppExecResult {
+	o := itemOpts{protected: true, maxBytes: 100, plain: true}
 	a := &state.AppExecResult{Container: u256(r)}
 	a.Trigger = []trigger.Type{trigger.OnPersist, trigger.PostPersist, trigger.Verification, trigger.Application}[r.Intn(4)]
 	a.VMState = []vmstate.State{vmstate.Halt, vmstate.Fault}[r.Intn(2)]
@@ -220,16 +223,16 @@ func genAER(r *rng.R, shape *[]string) *state.AppExecResult {
 		a.Stack = append(a.Stack, it)
 	}
 	for range r.Intn(4) {
-		a.Events = append(a.Events, state.NotificationEvent{ScriptHash: u160(r), Name: text(r, 32), Item: genArrayItem(r, itemOpts{maxBytes: 60})})
+		a.Events = append(a.Events, state.NotificationEvent{ScriptHash: u160(r), Name: text(r, 32), Item: genArrayItem(r, itemOpts{maxBytes: 60, plain: true})})
 	}
 	if a.VMState == vmstate.Fault || r.Chance(1, 5) {
 		a.FaultException = text(r, 80)
 	}
-	if r.Chance(1, 3) {
+	if invocations && r.Chance(1, 3) {
 		for range 1 + r.Intn(3) {
 			var args []byte
 			if r.Chance(3, 4) {
-				args, _ = stackitem.Serialize(genArrayItem(r, itemOpts{maxBytes: 40}))
+				args, _ = stackitem.Serialize(genArrayItem(r, itemOpts{maxBytes: 40, plain: true}))
 			}
 			a.Invocations = append(a.Invocations, *state.NewContractInvocation(u160(r), ident(r, 20), args, bu32(r)))
 		}
